@@ -540,6 +540,9 @@ def run(ctx):
         'line by Trace_MiscModels.tla.  non-trivial = at least one evaluated species carries a '
         'model, or the history has a lifecycle step after construct; distinct by signature '
         '(family, list, T shape, conditions / operation sequence)')
+    import time
+    t0 = time.time()
+    phase = {}
     rnd = random.Random(ctx.seed)
     if ctx.replay_case is not None:
         cases = [ctx.replay_case['case']]
@@ -549,8 +552,9 @@ def run(ctx):
         traits = (('alias', 'PAdjCount'), ('ignoreflag', 'PAdjCount'),
                   ('dictreload', 'AllDecoded'), ('loseflag', 'PAdjCount'))
         evalcfg = ctx.pick('MC_MiscEval', 'MC_MiscEval_thorough')
+        maincfg = ctx.pick('MC_MiscModels', 'MC_MiscModels_thorough')
         with cf.ThreadPoolExecutor(max_workers=8) as ex:      # the TLC runs are independent
-            f_main = ex.submit(core.run_tlc, 'MC_MiscModels', 'MC_MiscModels', None, 8)
+            f_main = ex.submit(core.run_tlc, 'MC_MiscModels', maincfg, None, 8, None, 3000)
             f_trait = [ex.submit(core.run_tlc, 'MC_MiscModels', 'MC_MiscModels_' + t, None, 1)
                        for t, _ in traits]
             f_eval = ex.submit(core.tlc_cases, 'MC_MiscEval', evalcfg, None, 1500)
@@ -566,7 +570,7 @@ def run(ctx):
                  'violated': r.violated, 'wall_s': round(r.wall, 1)})
         # (D) lifecycle model, and the four pinned traits which the design must reject
         r = f_main.result()
-        record('MC_MiscModels', r)
+        record(maincfg, r)
         if not r.ok:
             raise core.MachineryError('design model MC_MiscModels failed:\n' + r.out[-4000:])
         for (trait, want), f in zip(traits, f_trait):
@@ -600,7 +604,7 @@ def run(ctx):
         ctx.coverage['tlc_behaviours'] = len(behs)
         if ctx.quick:
             rnd.shuffle(behs)
-            behs = behs[:2000]
+            behs = behs[:1500]
         else:
             rs = core.run_tlc('MC_MiscModels', 'MC_MiscModels_sim', workers=1, timeout=1500,
                               extra=['-simulate', 'num=600', '-depth', '8', '-seed', str(ctx.seed + 1)])
@@ -611,9 +615,12 @@ def run(ctx):
             behs += sim
         for k, h in enumerate(behs):
             cases.append(_beh_case(h, 'b%d' % k, rnd))
-        for k in range(ctx.pick(700, 8000)):
+        for k in range(ctx.pick(600, 8000)):
             cases.append(_random_case(rnd, 'r%d' % k))
+    phase['tlc_models_and_cases'] = round(time.time() - t0, 1)
+    t1 = time.time()
     results = core.pmap(_safe_execute, cases)
+    phase['execute'] = round(time.time() - t1, 1)
     traces = []
     n_ep = 0
     for tid, (case, (events, mism)) in enumerate(zip(cases, results)):
@@ -636,7 +643,10 @@ def run(ctx):
             ctx.sample({'fam': case['fam'], 'kind': case['kind'],
                         'ops': [{k: v for k, v in o.items() if k not in ('exp', 'exp_objs')}
                                 for o in case['ops']][:6]})
+    t2 = time.time()
     fails, stats = core.validate_traces('Trace_MiscModels', 'Trace', traces)
+    phase['trace_validation'] = round(time.time() - t2, 1)
+    ctx.coverage['phase_wall_s'] = phase
     ctx.count('traces_validated_against_impl', len(traces))
     ctx.coverage['trace_lines'] = stats['lines']
     ctx.coverage['entropy_pressure_antecedent_true'] = n_ep
@@ -651,6 +661,14 @@ def run(ctx):
                               'first_event': {k: v for k, v in ev.items()
                                               if k in ('ev', 'o', 'scalar', 'Ts', 'P', 'ok', 'exc', 'objs',
                                                        'src', 'via', 'phase', 'flag', 'given', 'sib', 'after')}})
+    # put one observation of every distinct (clause, tags) first: replay files are capped
+    rank, seen_n = [], {}
+    for v in ctx.violations:
+        key = (v['clause'], json.dumps(v['tags'], sort_keys=True, default=str))
+        rank.append(seen_n.get(key, 0))
+        seen_n[key] = rank[-1] + 1
+    ctx.violations = [v for _, _, v in sorted(zip(rank, range(len(rank)), ctx.violations),
+                                              key=lambda t: (t[0], t[1]))]
     ctx.assume('grid replays rely on the dyadic grid (T = 256 tau, P = P4/4, x = x4/4, bare polynomials '
                'with a2 = 2^-9, a6 = 256, a7 = 3 or zero Shomate coefficients) being exact in IEEE doubles')
     ctx.assume('Dec arithmetic: SumOnce/EntropyPressure clauses hold to ~1e-6 relative of the largest term')
